@@ -393,8 +393,10 @@ CCoinsViewCache::ResetGuard CoinsViewOverlay::StartFetching(const CBlock& block 
         }
         // Only submit tasks if we have something to fetch.
         if (m_inputs.size()) {
+            VERIF_ACCESS(&m_inputs, 1, "overlay.StartFetching.m_inputs");
             std::vector<std::function<void()>> tasks(workers_count, [this] {
                 while (ProcessInput()) {}
+                VERIF_SYNC_REL(this);
             });
             if (auto futures{m_thread_pool->Submit(std::move(tasks))}) {
                 m_futures = std::move(*futures);
